@@ -1,8 +1,12 @@
 CONSTANTS
   Slots = {1}
   Ds = {0, 1, 2}
-  MaxClock = 8
+  MaxClock = 4
   W0 = 5
+  W0B = 9000000
+  Ambients = {"A", "B", "none"}
+  Threads = {"main", "other"}
+  Resolution = "captured"
 SPECIFICATION TmSpec
 INVARIANT TmTypeOK
 INVARIANT TmInv
